@@ -2,7 +2,8 @@
    goroutine protocol is Client/Lifecycle.v, the proofs are in Client/LifecycleFacts.v.
 
    Everything below is for all burst sizes n_q, all fault sides and message indices f_k (including
-   "no fault"), both closer modes (Close | Reset;Connect), all AwaitConverged budgets and ALL
+   "no fault" and FEnd = the server ends the RPC cleanly, status OK, after f_k responses whatever is
+   still unanswered), both closer modes (Close | Reset;Connect), all AwaitConverged budgets and ALL
    schedules (reach = every interleaving of the threads App, Sender, Receiver, Waiter, Closer).
    The positive theorems are about the repaired protocol lv_fixed
      (q() does not hold awaiting.RLock while it pushes into modifyCh and selects on sendExitCh);
@@ -11,7 +12,7 @@
    PARTIAL: the Go scheduler, gRPC and the mapping of goroutines to model threads are outside Coq
    (tied by the fault-injection harness vh-c14 on every run). *)
 From Coq Require Import List Arith Bool.
-From GV.Client Require Import Lifecycle LifecycleFacts.
+From GV.Client Require Import Lifecycle LifecycleFacts LifecycleEnd.
 Import ListNotations.
 
 (* no reachable state has all unfinished threads blocked *)
@@ -61,6 +62,45 @@ Theorem C14_await_returns_error c s : w_pc s = W3 -> serr s || rerr s = true -> 
 Proof. exact (await_error_when_recorded c s). Qed.
 Print Assumptions C14_await_returns_error.
 
+(* ---- the end of the stream as the sender sees it (any variant, any side, FEnd included) ---- *)
+
+(* whatever makes a Send fail - an injected status, a stream broken by the receive side, or an RPC the
+   server has ended, cleanly or not (Send then returns io.EOF) - the sender's next two steps, which
+   cannot block, put the send error on record (from where C14_await_returns_error surfaces it) *)
+Theorem C14_send_failure_recorded c s : reconn s = false -> s_pc s = S3 -> send_fails c s = true ->
+  exists s1 s2, step c s TSender = Some s1 /\ step c s1 TSender = Some s2
+                /\ s_pc s2 = S5e /\ serr s2 = true /\ broken s2 = true.
+Proof. exact (send_failure_recorded c s). Qed.
+Print Assumptions C14_send_failure_recorded.
+
+(* until Reset clears the lists, the sender is gone only with a send error on record, because Close /
+   Reset asked it to (CloseSend done), or because the receiver saw the end of the stream (shut) *)
+Theorem C14_sender_exit_reasons c s : reach c s -> before_reset c s -> sender_gone s = true ->
+  serr s = true \/ half s = true \/ shut s = true.
+Proof. exact (sender_exit_reasons c s). Qed.
+Print Assumptions C14_sender_exit_reasons.
+
+(* the server ends the RPC (the receiver has seen EOF: shut, and nobody called Close: half = false) while
+   the sender is idle in its channel receive: whatever happens next, in any order, the sender cannot be
+   gone - short of Close - without the send error on record.  With requests unanswered that error is the
+   only trace of the end of the stream: a clean end is not an error for the receiver. *)
+Theorem C14_clean_end_noticed_by_idle_sender c s k s' :
+  reach c s -> s_pc s = S1 -> shut s = true -> half s = false ->
+  steps c s k s' -> before_reset c s' -> sender_gone s' = true -> half s' = false -> serr s' = true.
+Proof. exact (idle_sender_notices_end c s k s'). Qed.
+Print Assumptions C14_clean_end_noticed_by_idle_sender.
+
+(* the hypothesis "idle" is needed by the code as it is (and by the repaired q()): a sender between a
+   successful Send and its look at shut leaves silently when the receiver sees the clean end first; the
+   requests queued afterwards are dropped, two operations stay unanswered, no error is on record and
+   AwaitConverged can only time out *)
+Theorem C14_clean_end_can_go_unnoticed :
+  exists c s, l_var c = lv_fixed /\ f_side c = FEnd /\ reach c s /\ final s = true
+    /\ queued s = 2 /\ answered s = 0 /\ serr s = false /\ rerr s = false /\ w_res s = Some WTimeout
+    /\ s_pc s = SFin /\ r_pc s = RFin.
+Proof. exact clean_end_can_go_unnoticed. Qed.
+Print Assumptions C14_clean_end_can_go_unnoticed.
+
 (* the protocol as it is in the tree: Send number 0 slow then failing while 7 requests are queued:
    the 7th Q is blocked on the full channel holding awaiting.RLock, AwaitConverged on Lock (for ever,
    its context is never looked at again), the receiver on RLock; nothing can step *)
@@ -85,3 +125,15 @@ Example C14_example :
   outcome_of c (run_slow c 900) = mkout true (Some WErr) true true 0 true
   /\ deadlocked c (run_slow c 900) = false.
 Proof. vm_compute. split; reflexivity. Qed.
+
+(* non-vacuity of the clean-end clauses: 6 requests, the server ends the RPC after 2 responses with 4
+   requests received, the sender idle; the 2 further requests make the sender notice: AwaitConverged
+   returns the error, Reset + Connect gives a fresh client; and the state in which the server has ended
+   satisfies the hypotheses of C14_clean_end_noticed_by_idle_sender *)
+Example C14_example_clean_end :
+  let c := mklcfg 6 FEnd 2 MReset 40 lv_fixed in
+  outcome_of c (run_end c 4 700) = mkout true (Some WErr) true true 0 true
+  /\ let s := run_prio c [TSender; TReceiver] (fun _ => false) 700
+                (run_prio c [TApp; TSender] (fun s => is_a0 (a_pc s) && (4 <=? a_i s)) 700 (init c)) in
+     s_pc s = S1 /\ shut s = true /\ half s = false /\ queued s = 4 /\ answered s = 2 /\ serr s = false /\ rerr s = false.
+Proof. vm_compute. repeat split; reflexivity. Qed.
